@@ -206,3 +206,12 @@ Section Tbl.
     intros Hn. split; [apply tget_some|]. intros [Hx <-]. apply tget_in; auto.
   Qed.
 End Tbl.
+
+Lemma NoDup_app_snoc {A} (l : list A) x : NoDup l -> ~ In x l -> NoDup (l ++ [x]).
+Proof.
+  induction l as [|y l IH]; intros Hn Hx; cbn [app].
+  - constructor; [intros []|constructor].
+  - inversion Hn as [|? ? Hnin Hn']; subst. constructor.
+    + rewrite in_app_iff. cbn. intros [H|[->|[]]]; [contradiction|]. apply Hx. left. reflexivity.
+    + apply IH; [exact Hn'|]. intros H. apply Hx. right. exact H.
+Qed.
